@@ -142,6 +142,8 @@ class Parser:
         if define:
             toks = self.parser_work(define)
             main = utils.filter_set_toks(toks, 0, defs.LanguageToken)
+            # the text from the definitions is dropped: also its footnotes
+            self.extracted = []
         main += self.parser_work(latex)
 
         if extract:
